@@ -404,3 +404,163 @@ Section RenMain.
       apply Hext; [right; exact I | intros z Hz; right; exact Hz | assumption].
   Qed.
 End RenMain.
+
+Section RenAll.
+  Variable B : backend.
+  Variable ops : list string.
+  Notation ev := (eval B ops).
+
+  Lemma children_gr m e E E' c : good m e -> rel m e E E' -> In c (children e) -> good m c /\ rel m c E E'.
+  Proof. intros Hg Hr Hin. split; [eapply good_child | eapply rel_child]; eassumption. Qed.
+
+  Theorem ren_ok_all : forall n e, size e < n -> ren_ok B ops e.
+  Proof.
+    induction n as [|n IHn]; intros e Hn; [lia|].
+    assert (IH : forall e0, size e0 < size e -> ren_ok B ops e0) by (intros; apply IHn; lia).
+    clear IHn Hn. intros m E E' Hg Hr.
+    pose proof (size_sizes e) as Hsz.
+    assert (Hch : forall c, In c (children e) -> good m c /\ rel m c E E') by (intros; eapply children_gr; eassumption).
+    destruct e; cbn [children sizes] in Hsz; cbn [rename map_children_t]; try apply refines_refl.
+    - (* Name *)
+      cbn [eval]. apply refines_eq. fold (ren m id).
+      replace (match ren_lookup id m with Some y => Name y | None => Name id end) with (Name (ren m id))
+        by (unfold ren; destruct (ren_lookup id m); reflexivity).
+      cbn [eval]. apply Hr. cbn [occurs]. apply String.eqb_refl.
+    - (* Attr *)
+      cbn [eval]. apply obind_refines_l. destruct (Hch e (or_introl eq_refl)). apply IH; [lia | assumption | assumption].
+    - (* Call *)
+      rewrite sizes_app in Hsz.
+      assert (Hargs : forall c, In c args -> good m c /\ rel m c E E').
+      { intros c Hc. apply Hch. right. apply in_or_app; left; assumption. }
+      assert (Hkwv : forall c, In c kwv -> good m c /\ rel m c E E').
+      { intros c Hc. apply Hch. right. apply in_or_app; right; assumption. }
+      destruct (Hch e (or_introl eq_refl)) as [Hgf Hrf].
+      assert (Ra : refines (omap (ev E) args) (omap (ev E') (map (rename m) args))).
+      { eapply omap_ren; [exact IH | lia | assumption]. }
+      assert (Rk : refines (omap (ev E) kwv) (omap (ev E') (map (rename m) kwv))).
+      { eapply omap_ren; [exact IH | lia | assumption]. }
+      destruct e; cbn [rename map_children_t]; cbn [eval];
+        try (destruct kwn; [apply refines_refl |
+                            intros v0 H0; repeat (apply obind_some in H0; destruct H0 as [? [? H0]]); discriminate]).
+      + (* callee is a name: it is not moved *)
+        pose proof (ren_unmoved_callee m id _ args kwn kwv Hg eq_refl) as Hid.
+        replace (match ren_lookup id m with Some y => Name y | None => Name id end) with (Name id)
+          by (unfold ren in Hid; destruct (ren_lookup id m); congruence).
+        destruct kwn as [|k kwn].
+        * destruct args as [|s rest]; [apply refines_refl|]. cbn [map].
+          apply apply_op_refines.
+          -- destruct (Hargs s (or_introl eq_refl)). apply IH; [cbn [sizes] in Hsz; lia | assumption | assumption].
+          -- eapply (views_ren B ops (size (Call (Name id) (s :: rest) [] kwv))); [exact IH | cbn [sizes] in Hsz; lia |].
+             intros c Hc. apply Hargs. right; assumption.
+        * apply obind_refines; [assumption|]. intros vs.
+          apply obind_refines; [assumption|]. intros kvs. apply refines_refl.
+      + (* method call *)
+        assert (Hsa : size (Attr e a) = S (size e)) by reflexivity.
+        assert (Hv : good m e /\ rel m e E E').
+        { split; [eapply good_child; [|exact Hgf] | eapply rel_child; [|exact Hrf]]; simpl; auto. }
+        destruct kwn as [|k kwn].
+        * destruct (is_op ops a).
+          -- apply apply_op_refines.
+             ++ apply IH; [cbn [sizes] in Hsz; lia | apply Hv | apply Hv].
+             ++ eapply (views_ren B ops (size (Call (Attr e a) args [] kwv))); [exact IH | cbn [sizes] in Hsz; lia | assumption].
+          -- apply obind_refines; [apply IH; [cbn [sizes] in Hsz; lia | apply Hv | apply Hv]|].
+             intros r. apply obind_refines_l. assumption.
+        * apply obind_refines; [assumption|]. intros vs.
+          apply obind_refines; [assumption|]. intros kvs.
+          apply obind_refines_r. intros kws.
+          apply obind_refines_l. apply IH; [cbn [sizes] in Hsz; lia | apply Hv | apply Hv].
+      + (* called lambda *)
+        assert (Hsl : size (Lambda ps e) = S (size e)) by reflexivity.
+        fold (idmap ps).
+        destruct kwn as [|k kwn].
+        * apply obind_refines; [assumption|]. intros vs.
+          intros v Hv0. apply obind_some in Hv0. destruct Hv0 as [E0 [Hb Hv0]]. rewrite Hb. cbn [obind].
+          refine (IH e _ (idmap ps ++ m) (E0 ++ E) (E0 ++ E') (good_under m ps e Hgf) _ v Hv0); [cbn [sizes] in Hsz; lia|].
+          apply (rel_under m ps e E0 E E' Hgf); [|exact Hrf].
+          intros z. rewrite (bind_args_dom _ _ _ _ Hb). reflexivity.
+        * apply obind_refines; [assumption|]. intros vs.
+          apply obind_refines; [assumption|]. intros kvs.
+          apply obind_refines_r. intros kws.
+          intros v Hv0. apply obind_some in Hv0. destruct Hv0 as [E0 [Hb Hv0]]. rewrite Hb. cbn [obind].
+          refine (IH e _ (idmap ps ++ m) (E0 ++ E) (E0 ++ E') (good_under m ps e Hgf) _ v Hv0); [cbn [sizes] in Hsz; lia|].
+          apply (rel_under m ps e E0 E E' Hgf); [|exact Hrf].
+          intros z. rewrite (bind_args_dom _ _ _ _ Hb). reflexivity.
+    - (* UnaryOp *) cbn [eval]. apply obind_refines_l. destruct (Hch e (or_introl eq_refl)). apply IH; [lia | assumption | assumption].
+    - (* BinOp *)
+      cbn [eval]. destruct (Hch e1 (or_introl eq_refl)). destruct (Hch e2 (or_intror (or_introl eq_refl))).
+      apply obind_refines; [apply IH; [lia | assumption | assumption]|]. intros a.
+      apply obind_refines_l. apply IH; [lia | assumption | assumption].
+    - (* BoolOp *)
+      cbn [eval]. apply boolop_refines. eapply evals_ren; [exact IH | lia | assumption].
+    - (* Compare *)
+      cbn [eval]. destruct (Hch e (or_introl eq_refl)).
+      apply obind_refines; [apply IH; [lia | assumption | assumption]|]. intros lv.
+      apply compare_refines. eapply evals_ren; [exact IH | lia |].
+      intros c Hc. apply Hch. right; assumption.
+    - (* IfExp *)
+      cbn [eval]. destruct (Hch e1 (or_introl eq_refl)). destruct (Hch e2 (or_intror (or_introl eq_refl))).
+      destruct (Hch e3 (or_intror (or_intror (or_introl eq_refl)))).
+      apply obind_refines; [apply IH; [lia | assumption | assumption]|]. intros cv.
+      destruct (truthy cv); apply IH; try lia; assumption.
+    - (* Tuple *) cbn [eval]. apply option_map_refines. eapply omap_ren; [exact IH | lia | assumption].
+    - (* List *) cbn [eval]. apply option_map_refines. eapply omap_ren; [exact IH | lia | assumption].
+    - (* Dict *)
+      cbn [eval]. rewrite sizes_app in Hsz. rewrite !map_length.
+      destruct (Nat.eqb (length ks) (length vs)); [|apply refines_refl].
+      apply obind_refines.
+      + eapply omap_ren; [exact IH | lia |]. intros c Hc. apply Hch. apply in_or_app; left; assumption.
+      + intros kvs. apply obind_refines_l.
+        eapply omap_ren; [exact IH | lia |]. intros c Hc. apply Hch. apply in_or_app; right; assumption.
+    - (* Subscript *)
+      cbn [eval]. destruct (Hch e1 (or_introl eq_refl)). destruct (Hch e2 (or_intror (or_introl eq_refl))).
+      apply obind_refines; [apply IH; [lia | assumption | assumption]|]. intros a.
+      apply obind_refines_l. apply IH; [lia | assumption | assumption].
+    - (* ListComp *) cbn [eval]. eapply comp_ren; [exact IH | lia | assumption].
+    - (* GenExp *) cbn [eval]. eapply comp_ren; [exact IH | lia | assumption].
+  Qed.
+End RenAll.
+
+Theorem rename_refines B ops m e E E' :
+  good m e -> rel m e E E' -> refines (eval B ops E e) (eval B ops E' (rename m e)).
+Proof. intros Hg Hr. eapply ren_ok_all; [apply Nat.lt_succ_diag_r | exact Hg | exact Hr]. Qed.
+
+(* ---------- make_args_unique on a one-parameter lambda (the operator lambdas) ---------- *)
+
+Lemma good_single x x' b :
+  (x' <> x -> mentions x' b = false /\ is_callee x b = false) -> good [(x, x')] b.
+Proof.
+  intros H. split; [|split].
+  - intros z y Hz Hy. simpl in Hz. destruct (String.eqb z x) eqn:E; [|discriminate]. inversion Hz; subst.
+    apply String.eqb_eq in E; subst. apply H; assumption.
+  - intros x1 x2 y H1 H2 _ _. simpl in H1, H2.
+    destruct (String.eqb x1 x) eqn:E1; [|discriminate]. destruct (String.eqb x2 x) eqn:E2; [|discriminate].
+    apply String.eqb_eq in E1, E2; congruence.
+  - intros z y Hz Hy. simpl in Hz. destruct (String.eqb z x) eqn:E; [|discriminate]. inversion Hz; subst.
+    apply String.eqb_eq in E; subst. apply H; assumption.
+Qed.
+
+Theorem rename_param_sound B ops x x' b v E :
+  (x' <> x -> mentions x' b = false /\ is_callee x b = false) ->
+  refines (eval B ops ((x, v) :: E) b) (eval B ops ((x', v) :: E) (rename [(x, x')] b)).
+Proof.
+  intros H. apply rename_refines; [apply good_single; assumption|].
+  intros z Hz. unfold ren. simpl.
+  destruct (String.eqb z x) eqn:Ezx.
+  - rewrite String.eqb_refl. reflexivity.
+  - destruct (String.eqb z x') eqn:Ezx'; [|reflexivity].
+    apply String.eqb_eq in Ezx'; subst z.
+    destruct (string_dec x' x) as [->|Hne]; [rewrite String.eqb_refl in Ezx; discriminate|].
+    destruct (H Hne) as [Hm _]. rewrite (occurs_mentions _ _ Hz) in Hm. discriminate.
+Qed.
+
+(* make_args_unique itself, on a one-parameter lambda: the renamed lambda is the same function *)
+Theorem make_args_unique_sound1 B ops x b c v E :
+  mentions (arg_name c) b = false -> is_callee x b = false ->
+  match make_args_unique [x] b c with
+  | (Lambda [x'] b', _) => refines (eval B ops ((x, v) :: E) b) (eval B ops ((x', v) :: E) b')
+  | _ => False
+  end.
+Proof.
+  intros Hm Hc. cbn [make_args_unique length fresh_names combine rev app].
+  apply rename_param_sound. intros _. split; assumption.
+Qed.
